@@ -374,29 +374,27 @@ def already_exists_failure(exc):
 # column pools in which '_'.join(sorted(group-by ids)) of different group-by sets coincide exactly
 # (A,B / A_B), ignoring case (A,B / a_b ; a,c / A_c), or not at all (controls)
 SIB_POOLS = (("A", "B", "A_B"), ("A", "B", "a_b"), ("a", "c", "A_c", "D"))
-SIB_OPS = ("rename_source", "rename_source_case_only", "rename_groupby_col", "rename_two_tables_one_batch",
-           "rename_source_via_metadata")
+SIB_OPS = ("rename_source", "rename_source_case_only", "rename_source_via_metadata",
+           "rename_two_tables_one_batch", "rename_groupby_cols")
 
 
 def sibling_cases(tier, seed):
+  """One case = one document (pool, group-by sets of the sibling summary tables) + the order in
+  which the renames are chained on it."""
   for pi, pool in enumerate(SIB_POOLS):
     subsets = [g for k in (1, 2) for g in itertools.combinations(pool, k)]
     groups = list(itertools.combinations(subsets, 2))
     if tier == "thorough":
       groups += list(itertools.combinations(subsets, 3))
     for gs in groups:
-      for op in SIB_OPS:
-        if op == "rename_groupby_col":
-          for col in sorted(set(c for g in gs for c in g)):
-            for new in ("Q", "b"):
-              yield {"pool": pi, "groupbys": [list(g) for g in gs], "op": op, "col": col, "new": new}
-        else:
-          yield {"pool": pi, "groupbys": [list(g) for g in gs], "op": op}
+      for rot in ((0, 3) if tier == "quick" else range(len(SIB_OPS))):
+        yield {"pool": pi, "groupbys": [list(g) for g in gs], "ops": list(SIB_OPS[rot:] + SIB_OPS[:rot])}
 
 
 def _call_siblings(a):
   """Builds Src(<pool>) + Other(x) with one summary table of Src per group-by set, then applies the
-  rename `op` through the real engine and examines every id of the document."""
+  renames of a["ops"] one after the other through the real engine; after each, every id of the
+  document is examined.  Stops at the first rename with a failure."""
   from vlib.rtc import eng
   pool = SIB_POOLS[a["pool"]]
   e = eng.new_engine()
@@ -406,53 +404,79 @@ def _call_siblings(a):
                 ["BulkAddRecord", "Src", [None, None], {pool[0]: ["u", "v"], pool[1]: ["u", "u"]}]])
   got = [c[0] for c in eng.schema_columns(e, "Src")]
   if not all(c in got for c in pool):
-    return {"fails": [("C21.harness", "pool %r became %r" % (pool, got))], "ids": None}
-  src = eng.table_ref(e, "Src")
+    return {"fails": [("C21.harness", "pool %r became %r" % (pool, got))], "steps": 0, "batches": 0}
+  src, other = eng.table_ref(e, "Src"), eng.table_ref(e, "Other")
   for g in a["groupbys"]:
     eng.apply(e, [["CreateViewSection", src, 0, "record", [eng.col_ref(e, "Src", c) for c in g], None]])
   fails = [(c, "after building the document: %r" % (d,)) for c, d in doc_id_failures(e)]
-  before = [t["tableId"] for t in eng.meta_records(e, "_grist_Tables")]
-  want = None
-  if a["op"] == "rename_source":
-    bundle, want = [["RenameTable", "Src", "Dst"]], {src: "Dst"}
-  elif a["op"] == "rename_source_case_only":
-    bundle, want = [["RenameTable", "Src", "SRC"]], {src: "SRC"}
-  elif a["op"] == "rename_source_via_metadata":
-    bundle, want = [["UpdateRecord", "_grist_Tables", src, {"tableId": "Dst"}]], {src: "Dst"}
-  elif a["op"] == "rename_two_tables_one_batch":
-    bundle = [["BulkUpdateRecord", "_grist_Tables", [src, eng.table_ref(e, "Other")],
-               {"tableId": ["Dst", "dst"]}]]
-    want = {src: "Dst"}
-  else:
-    bundle = [["RenameColumn", "Src", a["col"], a["new"]]]
-  exc = None
-  try:
-    eng.apply(e, bundle)
-  except Exception as ex:
-    exc = ex
-  after = {t["id"]: t["tableId"] for t in eng.meta_records(e, "_grist_Tables")}
-  pre = "%r on tables %r -> %r: " % (bundle, before, sorted(after.values()))
-  if exc is not None:
-    ae = already_exists_failure(exc)
-    if ae: fails.append((ae[0], pre + repr(ae[1])))
-    fails.append(("C21.total", pre + "a valid rename raised %r" % (exc,)))
-  else:
-    for ref, name in (want or {}).items():
-      if after.get(ref) != name:
-        fails.append(("C21.valid_unused_kept", pre + "valid unused table id %r was changed to %r"
-                      % (name, after.get(ref))))
-  fails += [(c, pre + repr(d)) for c, d in doc_id_failures(e)]
-  return {"fails": fails, "ids": sorted(after.values()), "raised": repr(exc) if exc else None,
-          "renamed": sorted(set(after.values()) - set(before))}
+  res = {"fails": fails, "steps": 0, "batches": 0, "history": []}
+  if fails:
+    return res
+  fresh = iter(["Dst", "Src", "Tab", "Dst", "Src", "Tab"])
+  gcols = sorted(set(c for g in a["groupbys"] for c in g))
+  for op in a["ops"]:
+    tabs = {t["id"]: t["tableId"] for t in eng.meta_records(e, "_grist_Tables")}
+    cur = tabs[src]
+    steps = []
+    if op == "rename_source":
+      n = next(fresh)
+      steps.append(([["RenameTable", cur, n]], {src: n}))
+    elif op == "rename_source_case_only":
+      n = cur.swapcase()
+      n = n if n[:1].isupper() else cur.upper()
+      steps.append(([["RenameTable", cur, n]], {src: n} if n != cur else {}))
+    elif op == "rename_source_via_metadata":
+      n = next(fresh)
+      steps.append(([["UpdateRecord", "_grist_Tables", src, {"tableId": n}]], {src: n}))
+    elif op == "rename_two_tables_one_batch":
+      n = next(fresh)
+      steps.append(([["BulkUpdateRecord", "_grist_Tables", [src, other], {"tableId": [n, n.lower()]}]],
+                    {src: n}))
+    else:
+      for i, c in enumerate(gcols):          # every group-by column, to a fresh id and onto a neighbour's
+        steps.append(([["RenameColumn", "<src>", c, "Q%d" % i]], {}))
+      if len(gcols) >= 2:
+        steps.append(([["RenameColumn", "<src>", "Q0", "q1"]], {}))
+    for bundle, want in steps:
+      before = {t["id"]: t["tableId"] for t in eng.meta_records(e, "_grist_Tables")}
+      bundle = [[before[src] if x == "<src>" else x for x in act] for act in bundle]
+      exc = None
+      try:
+        eng.apply(e, bundle)
+      except Exception as ex:
+        exc = ex
+      after = {t["id"]: t["tableId"] for t in eng.meta_records(e, "_grist_Tables")}
+      res["steps"] += 1
+      res["history"].append(bundle)
+      if len([r for r in after if after[r] != before.get(r)]) >= 2:
+        res["batches"] += 1
+      pre = "[%s] %r on tables %r -> %r: " % (op, bundle, sorted(before.values()), sorted(after.values()))
+      if exc is not None:
+        ae = already_exists_failure(exc)
+        if ae: fails.append((ae[0], pre + repr(ae[1])))
+        fails.append(("C21.total", pre + "a valid rename raised %r" % (exc,)))
+      else:
+        for ref, name in want.items():
+          if after.get(ref) != name:
+            fails.append(("C21.valid_unused_kept", pre + "valid unused table id %r was changed to %r"
+                          % (name, after.get(ref))))
+      fails += [(c, pre + repr(d)) for c, d in doc_id_failures(e)]
+      if fails:
+        res["op"] = op
+        return res
+  return res
 
 
 def _classify_siblings(a, clause, detail):
-  return "sibling-summary-tables:%s:%s" % (a.get("op"), clause.split(".", 1)[1])
+  d = str(detail)
+  op = d[1:d.index("]")] if d.startswith("[") and "]" in d else "build"
+  return "sibling-summary-tables:%s:%s" % (op, clause.split(".", 1)[1])
 
 
 def _siblings_nontrivial(a, r, exc):
-  """non-trivial = the one rename changed the ids of at least two tables (a batch of picks)."""
-  return r is not None and len(r.get("renamed") or []) >= 2
+  """non-trivial = at least one rename of the chain changed the ids of two or more tables (a
+  batch of picks)."""
+  return r is not None and r.get("batches", 0) >= 1
 
 
 def _monitor_base():
@@ -627,11 +651,14 @@ def main():
                % (len(BATCH_POOL), len(BATCH_AVOID), 3000 if tier == "quick" else 60000),
     "pick_col_name": "%d tables x %d names x old ids x 4 avoid_extra" % (len(PCN_TABLES), len(PCN_NAMES)),
     "sibling_summary_tables": "column pools %r; every %s of distinct group-by sets of 1-2 columns of a pool "
-                              "as summary tables of one source table; then one of: RenameTable source "
-                              "(new name / case-only), UpdateRecord _grist_Tables tableId, BulkUpdateRecord "
-                              "_grist_Tables renaming the source and a second table to 'Dst','dst', "
-                              "RenameColumn of each group-by column to 'Q' / 'b'"
-                              % (SIB_POOLS, "pair" if tier == "quick" else "pair and triple"),
+                              "as summary tables of one source table; then a chain of renames, every id "
+                              "examined after each: RenameTable source to a new name, RenameTable source "
+                              "changing only case, UpdateRecord _grist_Tables tableId, BulkUpdateRecord "
+                              "_grist_Tables renaming the source and a second table to 'X','x', RenameColumn "
+                              "of every group-by column (to fresh ids, then one onto another ignoring case); "
+                              "chain started at %s"
+                              % (SIB_POOLS, "pair" if tier == "quick" else "pair and triple",
+                                 "op 0 and op 3" if tier == "quick" else "every op (5 rotations)"),
     "engine": "seed docs basic, refs, summary, c21_joined (two source tables with sibling summary tables "
               "whose encoded names coincide exactly / ignoring case); histories of 6 bundles: awkward "
               "AddTable / AddColumn / RenameColumn / RenameTable / metadata colId, label, tableId updates, "
